@@ -72,6 +72,7 @@ type batchSpanProcessor struct {
 	stopWait   sync.WaitGroup
 	stopOnce   sync.Once
 	stopCh     chan struct{}
+	stopDone   chan struct{}
 	stopped    atomic.Bool
 }
 
@@ -125,12 +126,13 @@ func NewBatchSpanProcessor(exporter SpanExporter, options ...BatchSpanProcessorO
 		o.ExportTimeout = DefaultExportTimeout * time.Millisecond
 	}
 	bsp := &batchSpanProcessor{
-		e:      exporter,
-		o:      o,
-		batch:  make([]ReadOnlySpan, 0, o.MaxExportBatchSize),
-		timer:  time.NewTimer(o.BatchTimeout),
-		queue:  make(chan ReadOnlySpan, o.MaxQueueSize),
-		stopCh: make(chan struct{}),
+		e:        exporter,
+		o:        o,
+		batch:    make([]ReadOnlySpan, 0, o.MaxExportBatchSize),
+		timer:    time.NewTimer(o.BatchTimeout),
+		queue:    make(chan ReadOnlySpan, o.MaxQueueSize),
+		stopCh:   make(chan struct{}),
+		stopDone: make(chan struct{}),
 	}
 
 	bsp.stopWait.Add(1)
@@ -165,11 +167,9 @@ func (bsp *batchSpanProcessor) OnEnd(s ReadOnlySpan) {
 // Shutdown flushes the queue and waits until all spans are processed.
 // It only executes once. Subsequent call does nothing.
 func (bsp *batchSpanProcessor) Shutdown(ctx context.Context) error {
-	var err error
 	bsp.stopOnce.Do(func() {
 		bsp.stopped.Store(true)
 		verifPoint("bsp.sd.stopped", ctx)
-		wait := make(chan struct{})
 		go func() {
 			close(bsp.stopCh)
 			verifPoint("bsp.sd.closed", ctx)
@@ -179,16 +179,17 @@ func (bsp *batchSpanProcessor) Shutdown(ctx context.Context) error {
 					otel.Handle(err)
 				}
 			}
-			close(wait)
+			close(bsp.stopDone)
 		}()
-		// Wait until the wait group is done or the context is cancelled
-		select {
-		case <-wait:
-		case <-ctx.Done():
-			err = ctx.Err()
-		}
 	})
-	return err
+	// Every caller, not only the first, waits until the queue is drained and
+	// the exporter is shut down, or until its own context is cancelled.
+	select {
+	case <-bsp.stopDone:
+		return nil
+	case <-ctx.Done():
+		return ctx.Err()
+	}
 }
 
 type forceFlushSpan struct {
